@@ -8,9 +8,13 @@ func init() {
 	checks["C03"] = func(c *Check) {
 		c.Technique = "symbolic execution of go/ssa + SMT (z3): window kernel vs oracle, framework placement with stub lints"
 		c.Assume("P1: times have no monotonic reading, 0 <= nsec < 1e9, |seconds since year 1| < 2^55, location nil (UTC) - what encoding/asn1 time parsing yields")
-		c.Add(&Job{Pkg: lintPkg, Func: "VerifC03CheckEffective", MustCover: []string{"in-window", "out-of-window"}})
+		cal := func(cf *Config) { cf.Calendar = true }
+		c.Add(&Job{Pkg: lintPkg, Func: "VerifC03CheckEffective", MustCover: []string{"in-window", "out-of-window"}, Tune: cal})
 		c.Assume("time zones: each of the three instants is in UTC or in a fixed zone with an arbitrary offset of less than a day (what DER times with a +hhmm offset parse to)")
-		c.Add(&Job{Label: "VerifC03CheckEffective/fixed zones", Pkg: lintPkg, Func: "VerifC03CheckEffective", MustCover: []string{"in-window", "out-of-window"}, Tune: func(cf *Config) { cf.Bounds["timeloc"] = 1 }})
+		c.Add(&Job{Label: "VerifC03CheckEffective/fixed zones", Pkg: lintPkg, Func: "VerifC03CheckEffective", MustCover: []string{"in-window", "out-of-window"}, Tune: func(cf *Config) { cf.Bounds["timeloc"] = 1; cf.Calendar = true }})
+		// sanity of the calendar abstraction the engine falls back on when code under test re-derives an instant
+		// from calendar fields (the unchanged tree does not): proved under the model, replayed natively
+		c.Add(&Job{Pkg: lintPkg, Func: "VerifC03CalendarModel", MustCover: []string{"rebuilt"}, Tune: cal})
 		w := []string{"outside the window", "inside the window"}
 		addOrderJobs(c, "C03", map[int][]string{0: w, 1: w, 2: w})
 	}
